@@ -256,11 +256,13 @@ fn run_reader(stream: &[u8], ops: &[ROp], chunks: &[u16], v: &mut Verdict) -> Re
         let at = format!("reader step {step} {op:?}");
         match op {
             ROp::Seek(t) => {
-                let mut p = m.resolve(*t);
+                let p = m.resolve(*t);
+                // a position inside the 4 checksum bytes of a page is no position of the logical stream: like the writer
+                // the reader must refuse it (and stay where it is); the end itself is valid (reads return 0 there)
+                let valid = p <= file.len() as u64 && phys_to_log(p).is_some();
                 if phys_to_log(p).is_none() {
-                    p -= p % PAGE as u64; // callers never seek into checksums
+                    v.nt("reader_seek_into_a_checksum");
                 }
-                let valid = p <= file.len() as u64; // the end itself is a valid position (reads return 0 there)
                 match (r.seek_physical(p), valid) {
                     (Ok(l), true) => {
                         let want = phys_to_log(p).unwrap_or(0);
@@ -270,7 +272,7 @@ fn run_reader(stream: &[u8], ops: &[ROp], chunks: &[u16], v: &mut Verdict) -> Re
                         cur = want as usize;
                     }
                     (Err(_), false) => v.label("reader_seek_beyond_end_rejected"),
-                    (Ok(_), false) => return Err(format!("{at}: seek_physical({p}) beyond the file of {} bytes succeeded", file.len())),
+                    (Ok(_), false) => return Err(format!("{at}: seek_physical({p}) to a position that does not exist (file of {} bytes, checksums are no positions) succeeded", file.len())),
                     (Err(e), true) => return Err(format!("{at}: seek_physical({p}) failed: {e}")),
                 }
             }
